@@ -217,7 +217,13 @@ def run_harness(h, prop, tdir, scale=1.0):
     (logd / (h["name"] + ".log")).write_text(out)
     r = parse_kani(out)
     r.update({"name": h["name"], "cmd": cmd, "wall": time.time() - t0, "rc": rc, "timed_out": timed_out})
-    real = [f for f in r["failed"] if not BENIGN.match(f["desc"])]
+    def benign(f):
+        if BENIGN.match(f["desc"]):
+            return True
+        # Kani's overflow check on simd_mul/add/sub applied to FLOAT vector intrinsics (result +-inf)
+        return bool(re.match(r"attempt to compute simd_(mul|add|sub|div) which would overflow", f["desc"])
+                    and re.search(r"_mm(256)?_\w+_p[sd]\b", f["func"]))
+    real = [f for f in r["failed"] if not benign(f)]
     unwind = [f for f in real if "unwinding assertion" in f["desc"]]
     r["real_failed"] = [f for f in real if f not in unwind]
     must = [c for c in r["covers"] if not c["desc"].startswith("opt:")]
